@@ -266,9 +266,23 @@ func oracleC16Innermost(res *Result) {
 	for _, origin := range []struct {
 		name string
 		mk   func() error
-	}{{"errors.New", c16Origin}, {"pkg/errors.New", c16PkgOrigin}} {
+	}{{"errors.New", c16Origin}, {"pkg/errors.New", c16PkgOrigin}, {"errors.New in C:/gen/rules.opt", c16ColonOrigin}, {"pkg/errors.New in gen:rules.opt", c16ColonPkgOrigin}} {
 		o := origin.mk()
 		want := src(o)
+		// independently of the library's printing and parsing of stacks: the innermost captured
+		// program counter as the Go runtime resolves it
+		if sp, ok := o.(errbase.StackTraceProvider); ok && len(sp.StackTrace()) > 0 {
+			pc := uintptr(sp.StackTrace()[0]) - 1
+			if fn := runtime.FuncForPC(pc); fn != nil {
+				file, line := fn.FileLine(pc)
+				gf, gl, _, gok := errors.GetOneLineSource(o)
+				res.OracleEvals["C16.one_line_source_vs_runtime"]++
+				if !gok || gf != filepath.Base(file) || gl != line {
+					res.fail(&Case{ID: "innermost/" + origin.name, Cmd: L(Sym("c16-innermost"), Str(origin.name))}, "C16.one_line_source_vs_runtime",
+						fmt.Sprintf("GetOneLineSource gives (%q, %d, %v), the runtime resolves the innermost frame to %s:%d", gf, gl, gok, file, line), "C16:source-vs-runtime")
+				}
+			}
+		}
 		hop := func(e error) error { d, _ := hopsReal(e, 1); return d }
 		shapes := []namedErr{
 			{"WithStack(origin)", errors.WithStack(o)},
